@@ -16,6 +16,8 @@ def harnesses(tier):
         {'name': 'earlier-link-view-N3-W1', 'fn': graph.h_stale_link_view, 'cfg': {'N': 3, 'nW': 1, 'props': ['C16'], 'ops1': ['set_preds', 'set_succs', 'pred_append', 'succ_append', 'pred_remove', 'succ_remove', 'lshift', 'rshift']}},
         {'name': 'step-N3-W2', 'fn': graph.h_step,
          'cfg': {'prop': 'C16', 'N': 3, 'nW': 2, 'seqlen': 3, 'ops': graph.ALL_OPS}},
-        {'name': 'step-N4-W1', 'fn': graph.h_step,
-         'cfg': {'prop': 'C16', 'N': 4, 'nW': 1, 'seqlen': 1, 'ops': graph.ALL_OPS}},
+        {'name': 'step-N4-W1-hierarchy-ops', 'fn': graph.h_step,
+         'cfg': {'prop': 'C16', 'N': 4, 'nW': 1, 'seqlen': 1, 'ops': graph.HIER_OPS}},
+        {'name': 'step-N4-W1-link-ops', 'fn': graph.h_step,
+         'cfg': {'prop': 'C16', 'N': 4, 'nW': 1, 'seqlen': 1, 'ops': graph.LINK_OPS + ['list_lshift', 'list_rshift']}},
     ]
